@@ -4,7 +4,7 @@
 # Prints one line per change: CAUGHT / MISSED / NOAPPLY.
 cd "$(dirname "$0")/.."
 for d in seeded/${1:-}*/; do
-  n=$(basename $d); id=$(python3 -c "import json;print(json.load(open('$d/meta.json'))['property'])" 2>/dev/null)
+  n=$(basename $d); id=$(python3 -c "import json;m=json.load(open('$d/meta.json'));print(m.get('check_with') or m['property'])" 2>/dev/null)
   [ -z "$id" ] && { echo "$n: no meta.json"; continue; }
   if ! git -C /repo apply --check "$PWD/$d/patch.diff" 2>/dev/null; then echo "NOAPPLY $n"; continue; fi
   out=$(scripts/try_patch.sh $d/patch.diff $id 2>&1)
